@@ -68,7 +68,7 @@ theorem paintLit16_spec (width y : Nat) (A B : Bytes) (hA : A.length = y * width
     simp only
     cases bs with
     | nil =>
-      simp only [List.length_nil, Nat.add_zero, Nat.zero_add, List.nil_append] at hp ⊢
+      simp only [List.length_nil, Nat.zero_add, List.nil_append] at hp ⊢
       by_cases hw : p.length + 1 ≥ width
       · have h2 : p.length + 1 = width := by omega
         rw [if_pos hw, if_pos h2, if_pos h2]
@@ -86,5 +86,66 @@ theorem paintLit16_spec (width y : Nat) (A B : Bytes) (hA : A.length = y * width
       rw [this]
       have e1 : p.length + 1 + (bs2.length + 1) = p.length + (bs2.length + 1 + 1) := by omega
       simp only [e1, List.append_assoc, List.cons_append, List.nil_append]
+
+/-- where the loop stands relative to the painted prefix `p` of line `y`: at it, or (line start only) still at the
+    end of the line above, which a run filled without wrapping -/
+def Pos (width x : Nat) (yI : Int) (plen y : Nat) : Prop :=
+  (x = plen ∧ yI = (y : Int)) ∨ (plen = 0 ∧ x = width ∧ yI = (y : Int) + 1)
+
+/-- line `y` is complete: wrapped to the next line (literal) or standing at its end (run) -/
+def Done (width x : Nat) (yI : Int) (y : Nat) : Prop :=
+  (x = 0 ∧ yI = (y : Int) - 1) ∨ (x = width ∧ yI = (y : Int))
+
+theorem jump16_pos (w width n x : Nat) (yI : Int) (plen y : Nat) (hpos : Pos width x yI plen y)
+    (hn : 1 ≤ n) (hfit : plen + n ≤ width) (hns : ¬ (plen < w ∧ w < plen + n)) (hw : w ≤ width) :
+    jump16 w width n x yI = (plen, (y : Int)) := by
+  unfold jump16
+  rcases hpos with ⟨hx, hy⟩ | ⟨hp0, hx, hy⟩
+  · rw [hx, hy]
+    have h1 : ¬ (plen + n > w ∧ plen < w) := by omega
+    have h2 : ¬ (plen + n > width) := by omega
+    simp only [h1, if_false, h2]
+  · rw [hx, hy, hp0]
+    have h1 : ¬ (width + n > w ∧ width < w) := by omega
+    have h2 : width + n > width := by omega
+    simp only [h1, if_false, h2, if_true]
+    congr 1; omega
+
+theorem loop16_nil (w width : Nat) (data : Bytes) (x : Nat) (yI : Int) : loop16 w width [] data x yI = .ok data := by
+  rw [loop16]; split <;> rfl
+
+theorem loop16_run (w width n : Nat) (v : UInt8) (rest data : Bytes) (x : Nat) (yI : Int) (x0 : Nat) (y0 : Int)
+    (h2 : 2 ≤ n) (h128 : n ≤ 128) (hy : 0 ≤ yI) (hj : jump16 w width n x yI = (x0, y0)) :
+    loop16 w width ((Op.run n v).bytes ++ rest) data x yI =
+      match paintRun16 width y0 v n data x0 with
+      | .error e => .error e
+      | .ok (data, x) => loop16 w width rest data x y0 := by
+  have e1 : (UInt8.ofNat (257 - n)).toNat = 257 - n := by
+    simp only [UInt8.toNat_ofNat']; omega
+  simp only [Op.bytes, List.cons_append, List.nil_append]
+  rw [loop16]
+  have e0 : ¬ (yI < 0) := by omega
+  have e2 : (257 - n ≥ 128) := by omega
+  have e3 : 257 - (257 - n) = n := by omega
+  simp only [e0, e1, e2, e3, if_true, if_false, hj]
+  cases paintRun16 width y0 v n data x0 with
+  | error e => rfl
+  | ok a => cases a; rfl
+
+theorem loop16_lit (w width : Nat) (bs : Bytes) (rest data : Bytes) (x : Nat) (yI : Int) (x0 : Nat) (y0 : Int)
+    (h1 : 1 ≤ bs.length) (h128 : bs.length ≤ 128) (hy : 0 ≤ yI) (hj : jump16 w width bs.length x yI = (x0, y0)) :
+    loop16 w width ((Op.lit bs).bytes ++ rest) data x yI =
+      match paintLit16 width bs.length (bs ++ rest) data x0 y0 with
+      | .error e => .error e
+      | .ok (data, x, y, r2) => loop16 w width r2 data x y := by
+  have e1 : (UInt8.ofNat (bs.length - 1)).toNat = bs.length - 1 := by
+    simp only [UInt8.toNat_ofNat']; omega
+  simp only [Op.bytes, List.cons_append]
+  rw [loop16.eq_def]
+  have e0 : ¬ (yI < 0) := by omega
+  have e2 : ¬ (bs.length - 1 ≥ 128) := by omega
+  have e3 : bs.length - 1 + 1 = bs.length := by omega
+  simp only [e0, e1, e2, if_false]
+  split <;> rename_i heq <;> rw [e1, e3, hj] at heq <;> simp only [heq]
 
 end Drx.Bitd
